@@ -27,7 +27,7 @@ REACH_PROBES = ['long_child_after_timeout_none', 'op_set', 'op_unset', 'op_timeo
                 'act_spec_outside_setup', 'ref_unknown', 'ref_known', 'value_from_program', 'timeout_none',
                 'fault_between_ops', 'cleanup_after_fault_sees_state', 'slow_below', 'slow_above_killed',
                 'ops_in_cleanup', 'ops_in_assert', 'atc_observed', 'stub_view_observed', 'cd_relative',
-                'atc_by_command_line_actor', 'atc_by_file_actor', 'atc_by_source_actor']
+                'atc_by_command_line_actor', 'process_with_empty_environment', 'atc_by_file_actor', 'atc_by_source_actor']
 
 NAMES = ['V1', 'V2', 'V3', 'SIMBASE_A']
 PHASES = ['setup', 'before-assert', 'assert', 'cleanup']
@@ -59,8 +59,17 @@ def gen_ops(g, procs):
     model = S.Settings(world_mod.FIXED_ENVIRON)
     ops = []
     nv = 0
+    # in one history out of eight a set (or both) is emptied completely at some point: an empty set is a set that has
+    # been changed, not one that is yet to be initialised from the environment Exactly was started with
+    purge_at = g.randrange(n) if g.random() < 0.125 else None
+    purge_spec = g.choice([None, 'act', '!act'])
     for i in range(n):
         ph = phase_of[i]
+        if i == purge_at:
+            for name in sorted(set(model.act) | set(model.non)):
+                fx = ['unset', purge_spec, name]
+                model.apply(fx, ph)
+                ops.append((ph, fx))
         k = g.choice(['set', 'set', 'set', 'unset', 'timeout', 'cd'])
         if k == 'set':
             spec = g.choice([None, 'act', '!act'])
@@ -409,6 +418,8 @@ def _probes(plan, hist):
             pr['cleanup_after_fault_sees_state'] = 1
     if 'atc' in tags:
         pr['atc_observed'] = 1
+    if any(e['kind'] == 'spawn' and not e.get('env') for e in hist['events']):
+        pr['process_with_empty_environment'] = 1
         pr['atc_by_%s_actor' % (plan.get('actor') or 'command_line')] = 1
     if any(e.get('view') for e in hist['events']):
         pr['stub_view_observed'] = 1
